@@ -64,6 +64,19 @@ def scenario(rng):
         else:
             steps.append({"op": "call", "i": 1, "api": rng.choice(["send", "event"]),
                           "ev": rng.choice(d["evlist"]), "gv": gen.rand_gv(rng)})
+    if rng.random() < 0.3:
+        # a copy (deepcopy / pickle) taken at some point - for an async machine possibly before it was ever activated: the
+        # copy activates like the original would (same start_value), or resumes what the model stores, exactly once
+        at = 1 if (has_coro and rng.random() < 0.6) else rng.randint(1, len(steps))
+        # (the dynamically made enum of a stored alias cannot be pickled: deepcopy there)
+        steps.insert(at, {"op": "call", "i": 1, "api": "copy", "j": 2,
+                          "how": "deepcopy" if new.get("stored_alias") else rng.choice(["deepcopy", "pickle"])})
+        for _ in range(rng.randint(1, 4)):
+            r = rng.random()
+            st = ({"op": "call", "i": 2, "api": "activate", "gv": gen.rand_gv(rng)} if r < 0.4 else
+                  {"op": "call", "i": 2, "api": rng.choice(["send", "event"]), "ev": rng.choice(d["evlist"]), "gv": gen.rand_gv(rng)})
+            steps.insert(rng.randint(at + 1, len(steps)), st)
+        # (the restart steps re-use slot 1's model only)
     scn["steps"] = steps
     return scn
 
